@@ -123,6 +123,9 @@ impl<'a> Name<'a> {
     open spec fn wf_nocomp() -> bool { false }
     open spec fn wf_eqv(&self, other: &Self) -> bool { self.lv() == other.lv() }
     proof fn lemma_det(data: Seq<u8>, p: int, v1: &Self, e1: int, v2: &Self, e2: int) {}
+    open spec fn wf_fit(&self) -> bool { true }
+    open spec fn wf_empty_ok() -> bool { false }
+    proof fn lemma_dec_ok(data: Seq<u8>, p: int, v: &Self, p2: int) { lemma_name_dec_ok(data, p, v.lv()); }
     proof fn lemma_rt(&self, pre: Seq<u8>) {
         lemma_name_roundtrip(pre, self.lv(), Seq::empty());
         assert(pre + name_enc(self.lv()) + Seq::<u8>::empty() =~= pre + name_enc(self.lv()));
